@@ -178,7 +178,7 @@ class Prop(PropBase):
     ID = "C26"
     tiers = {
         "quick": {"runs": 320, "selftest_runs": 4},
-        "thorough": {"runs": 6000, "selftest_runs": 32},
+        "thorough": {"runs": 22000, "selftest_runs": 32},
     }
     rule = ("one run = one entry count driven for 80-240 cycles by a seeded phase plan (random / fill / drain / "
             "ping-pong / contend (free and free_idx together) / flush / idle) with `order` observed in most cycles; "
